@@ -352,8 +352,9 @@ func cmdCheck(args []string) int {
 						_ = os.WriteFile(filepath.Join(rp.Dir, "schedule_A.txt"), []byte(fmt.Sprintf("script %v\n\n%s", f.Script, f.Emits[name])), 0o644)
 						_ = os.WriteFile(filepath.Join(rp.Dir, "schedule_B.txt"), []byte(fmt.Sprintf("script %v\n\n%s", r.Script, text)), 0o644)
 						distinct := map[string]bool{}
-						if u.MapOrd == 0 {
-							// deterministic choice paths: replay both natively, once each
+						{
+							// the two paths may differ in a free choice (not only in a map order):
+							// replay both natively, once each
 							rpA, errA := makeReplay(m, id, u, f, -1)
 							if errA == nil {
 								rpA.Params = params
